@@ -24,7 +24,8 @@ Kernels(d, n) == { Se1(d), Se2(d), Rq1(d), Rq2(d),
 \* change-point kernels: evaluated on the point sets with small coordinates only (the logistic weights 2^e/(1+2^e) have denominators
 \* 3, 5, 9, ... and products of four of them with the kernel values must stay inside TLC's 32-bit integers)
 CpKernels(d, n) == { Sum(<<Cp(<<Se1(d), Rq1(d)>>, <<1>>), Wn>>), Sum(<<Cp(<<Rq2(d), Se1(d), Rq1(d)>>, <<0, 1>>), Wn>>),
-                     Sum(<<Se1(d), Cp(<<Rq1(d), Se2(d)>>, <<1>>), Wn>>), Cp(<<Se1(d), Se2(d), Rq1(d)>>, <<1, 0>>) }
+                     Sum(<<Se1(d), Cp(<<Rq1(d), Se2(d)>>, <<1>>), Wn>>), Cp(<<Se1(d), Se2(d), Rq1(d)>>, <<1, 0>>),
+                     Sum(<<[k |-> "cp", parts |-> <<Se1(d), Rq1(d)>>, axis |-> d, cs |-> <<1>>], Wn>>) }      \* change-point along the LAST axis
 CpPointSets == { << <<0>>, <<1>>, <<2>> >>, << <<0, 1>>, <<1, 0>> >> }
 Means(d) == { [k |-> "const", th |-> <<2>>], [k |-> "lin", th |-> Pre(<<1, 2, -1>>, 1 + d)], [k |-> "quad", th |-> Pre(<<1, 2, -1, 1, 3>>, 1 + 2 * d)] }
 VARIABLES X, kn, mf, out
